@@ -90,6 +90,20 @@ func init() {
 		}
 		return fmt.Sprintf("%s %08x", showHdr(&h), h.MarshalHeader())
 	}
+	// hdr2 <w1> <w2>: the same receiver unpacks w1, then w2 (a receiver that held another header before): the result
+	// must be w2's fields and pack back to w2
+	runners["hdr2"] = func(a []string) string {
+		d1, _ := hex.DecodeString(a[0])
+		d2, _ := hex.DecodeString(a[1])
+		var h of.MatchField
+		if err := h.UnmarshalHeader(d1); err != nil {
+			return "err1"
+		}
+		if err := h.UnmarshalHeader(d2); err != nil {
+			return "err"
+		}
+		return fmt.Sprintf("%s %08x", showHdr(&h), h.MarshalHeader())
+	}
 	runners["pack"] = func(a []string) string {
 		h := of.MatchField{Class: uint16(atoi(a[0])), Field: uint8(atoi(a[1])), HasMask: a[2] == "1", Length: uint8(atoi(a[3]))}
 		return fmt.Sprintf("%08x", h.MarshalHeader())
@@ -174,6 +188,15 @@ func init() {
 			w := c.rng.Uint32()
 			c.run("hdr", fmt.Sprintf("%08x", w))
 			c.run("pack", w>>16, w>>9&0x7f, w>>8&1, w&0xff)
+		}
+		// a receiver that already held a header: every combination of mask bits, then random pairs
+		for _, w1 := range []uint32{0x80000004, 0x80000108, 0x0001d704, 0xffffffff, 0} {
+			for _, w2 := range []uint32{0x80000004, 0x80000108, 0x0001d604, 0x0001d708, 0xffffffff, 0, 0x80007e00} {
+				c.run("hdr2", fmt.Sprintf("%08x", w1), fmt.Sprintf("%08x", w2))
+			}
+		}
+		for i := 0; i < n/10; i++ {
+			c.run("hdr2", fmt.Sprintf("%08x", c.rng.Uint32()), fmt.Sprintf("%08x", c.rng.Uint32()))
 		}
 		for _, s := range []string{"-", "00", "8000", "800006", "80000604ff", "8000060412345678"} {
 			c.run("hdr", s)
